@@ -503,10 +503,10 @@ func containsString(path []string, rid string) bool {
 	return false
 }
 
-func (s *Subscription) unsubscribeRefs() {
-	sent := s.IsSent()
+func (s *Subscription) unsubscribeRefs(sent bool) {
 	for _, ref := range s.refs {
-		s.c.Unsubscribe(ref.sub, false, sent, 1, false)
+		// A reference that was just marked unsent no longer counts its sent parents
+		s.c.Unsubscribe(ref.sub, false, sent && ref.sub.indirectsent > 0, 1, false)
 	}
 	s.refs = nil
 }
@@ -816,7 +816,9 @@ func (s *Subscription) Dispose() {
 	s.throttle = nil
 
 	if s.resourceSub != nil {
-		s.unsubscribeRefs()
+		// The state is already set to disposed; whether the references were
+		// sent to the client is told by the state before it.
+		s.unsubscribeRefs(state == stateSent)
 		if state != stateDeleted {
 			s.resourceSub.Unsubscribe(s)
 		}
